@@ -47,7 +47,11 @@ def generate_edits_from_text(original_text: str, modified_text: str) -> List[Doc
 
         elif op == -1:  # Delete
             # Defer deletion to check for immediate insertion (Modification)
-            pending_delete = (current_original_index, text)
+            if pending_delete:
+                # diff-match-patch can emit two deletions in a row; extend the pending one
+                pending_delete = (pending_delete[0], pending_delete[1] + text)
+            else:
+                pending_delete = (current_original_index, text)
             current_original_index += len(text)
 
         elif op == 1:  # Insert
